@@ -35,6 +35,7 @@ class Unit:
     bounded: Optional[Callable] = None                    # bounded stand-in: bounded() -> (n_cases, failures[list of str])
     z3_timeout_ms: Optional[int] = None
     note: str = ""
+    bounded_always: bool = False                          # run the bounded stand-in on every run (its failures are concrete inputs)
 
 
 class H:
@@ -146,6 +147,9 @@ def base_registry() -> Registry:
     from .theories import pybuiltins
     reg = Registry()
     pybuiltins.install(reg)
+    # repository helpers without a registered contract are interpreted as part of their caller (their real body),
+    # and reported under helpers_interpreted_inline; functions with a contract are always applied modularly
+    reg.inline.add("*")
     return reg
 
 
@@ -322,7 +326,7 @@ def report(prop, tier, seed, units, results, findings, wall, meta) -> int:
         short = name.split("/", 1)[1] if "/" in name else name
         key = None
         for (ob, kl), f in known_idx.items():
-            if (ob == short or ob == name) and o.get("klass") == kl:
+            if (ob == short or ob == name or name.endswith("/" + ob)) and o.get("klass") == kl:
                 key = (ob, kl)
                 break
         if key is not None:
@@ -346,10 +350,11 @@ def report(prop, tier, seed, units, results, findings, wall, meta) -> int:
 
     # bounded stand-ins for undecided units
     bounded_notes = []
-    if undecided or unknown:
+    if True:
         for r in results:
-            if r["undecided"]:
-                u = unit_by_name[r["unit"]]
+            u0 = unit_by_name[r["unit"]]
+            if r["undecided"] or (u0.bounded is not None and u0.bounded_always):
+                u = u0
                 if u.bounded is not None:
                     try:
                         n, fails = u.bounded()
